@@ -449,7 +449,7 @@ fn full(ctx: &mut Ctx, x: &BitVectorMut, m: &[bool], rng: &mut Rng, step: usize)
     ctx.obs("BitVectorMut", "iter", None, &|| w("iter()"), m.to_vec(), || x.iter().collect::<Vec<bool>>(), h_vec_bool);
     ctx.obs("BitVectorMut", "ones", None, &|| w("ones()"), ones.clone(), || x.ones().collect::<Vec<usize>>(), h_vec_usize);
     ctx.obs("BitVectorMut", "zeros", None, &|| w("zeros()"), zeros.clone(), || x.zeros().collect::<Vec<usize>>(), h_vec_usize);
-    let mut starts: Vec<usize> = vec![0, 1, n.saturating_sub(1), n, n + 1, n + 64, n + 513];
+    let mut starts: Vec<usize> = vec![0, 1, n.saturating_sub(1), n, n + 1, n + 64, n + 513, 1 << 63, usize::MAX - 64, usize::MAX - 63, usize::MAX - 1, usize::MAX];
     for b in [64usize, 512] {
         let mut k = b;
         while k <= n + b && starts.len() < 40 {
@@ -612,7 +612,7 @@ fn full(ctx: &mut Ctx, x: &BitVectorMut, m: &[bool], rng: &mut Rng, step: usize)
             ctx.obs("BitVector", "iter", None, &|| w("frozen iter()"), m.to_vec(), || bv.iter().collect::<Vec<bool>>(), h_vec_bool);
             ctx.obs("BitVector", "ones", None, &|| w("frozen ones()"), ones.clone(), || bv.ones().collect::<Vec<usize>>(), h_vec_usize);
             ctx.obs("BitVector", "zeros", None, &|| w("frozen zeros()"), zeros.clone(), || bv.zeros().collect::<Vec<usize>>(), h_vec_usize);
-            for &p in starts.iter().take(12) {
+            for &p in starts.iter().take(12).chain(starts.iter().rev().take(5)) {
                 let e1: Vec<usize> = ones.iter().copied().filter(|&q| q >= p).collect();
                 ctx.obs(
                     "BitVector",
@@ -624,7 +624,7 @@ fn full(ctx: &mut Ctx, x: &BitVectorMut, m: &[bool], rng: &mut Rng, step: usize)
                     h_vec_usize,
                 );
             }
-            for &p in starts.iter().rev().take(6).chain(starts.iter().skip(2).step_by(5)) {
+            for &p in starts.iter().rev().take(9).chain(starts.iter().skip(2).step_by(5)) {
                 let e0: Vec<usize> = zeros.iter().copied().filter(|&q| q >= p).collect();
                 ctx.obs(
                     "BitVector",
